@@ -23,7 +23,7 @@ WALL = {"quick": 280, "thorough": 3500}
 RULE = ("one run = shaped GFA1 graph (match-only / '*' overlaps) + scheduled delivery + optional "
         "mutations + merge_linear_paths twice; distinct = distinct (end-graph digest, order) pairs")
 PROBES = ["gfa2_graph", "mixed_sequences", "chain_ge3", "mixed_orientation_chain", "branching_junction", "cycle", 
-          "hairpin_on_end", "two_chains_one_junction", "without_sequences", "merged_something",
+          "hairpin_on_end", "two_chains_one_junction", "without_sequences", "merged_something", "merged_name_in_use",
           "nothing_to_merge", "after_mutation", "idempotent_checked", "star_overlap", "other_lines_present"]
 
 
@@ -117,6 +117,12 @@ def gen_shape(rng, k):
     if rng.random() < 0.3 and ulinks:
         l = rng.choice(ulinks)
         lines.append("P\tpth\t%s%s,%s%s\t*" % (l[0], l[1], l[2], l[3]))
+    if rng.random() < 0.15 and chains:
+        # an unrelated segment that has the name the merged chain would get
+        ch = rng.choice(chains)
+        nm = "_".join(x[0] for x in (ch if rng.random() < 0.5 else list(reversed(ch))))
+        if nm not in segs:
+            lines.append("S\t%s\t*" % nm)
     return lines
 
 
@@ -177,6 +183,15 @@ class EndGraph:
                 self.links.append((f[1], oend(f[2], True), f[3], oend(f[4], False), f[5], ln))
             elif f[0] not in ("H",) and not ln.startswith("#"):
                 self.other.append(ln)
+        # identifiers of lines that are not segments (paths, named edges, ID-tagged links, groups, gaps)
+        self.other_names = set()
+        for ln in text_lines:
+            f = ln.split("\t")
+            if f[0] in ("P", "E", "G", "O", "U") and len(f) > 1 and f[1] != "*":
+                self.other_names.add(f[1])
+            for t in f:
+                if t.startswith("ID:Z:"):
+                    self.other_names.add(t[5:])
 
     def deg(self):
         d = {}
@@ -433,6 +448,17 @@ def check_merge(g, pre, paths, cycles, st):
     for wk, cuts in paths:
         names = [x[0] for x in wk]
         fwd, rev = "_".join(names), "_".join(reversed(names))
+
+        def free(base):
+            # a joined name already in use (by a line that is not part of the chain) gets the first free suffix
+            nm, k_ = base, 2
+            while nm in pre.seq or nm in pre.other_names:
+                nm = "%s_%d" % (base, k_)
+                k_ += 1
+            return nm
+        if fwd in pre.seq or rev in pre.seq or fwd in pre.other_names or rev in pre.other_names:
+            st.count("probe.merged_name_in_use")
+        fwd, rev = free(fwd), free(rev)
         if fwd in post.seq:
             mname, walk, wc = fwd, wk, cuts
         elif rev in post.seq:
